@@ -131,9 +131,15 @@ def fn(law, name, branch):
 
 
 # ------------------------------------------------------------------ generators
-def gen_case(rng, law=None, Kp=None):
+def zero_vector(loads):
+    """A container of more than one load that holds exact zeros (+0.0 and -0.0) among non-zero loads of both signs."""
+    Ls = [float(x) for x in loads]
+    return [Ls[0], 0.0, -Ls[-1], -0.0, Ls[len(Ls) // 2]]
+
+
+def gen_case(rng, law=None, Kp=None, group=None, hi=None):
     law = law or rng.choice(["neuber", "sb"])
-    g = rng.choice(GROUPS)
+    g = group or rng.choice(GROUPS)
     Rm = rng.choice([rng.uniform(200, 2000), 200.0, 2000.0, 600.0])
     E, K, n = material(g, Rm)
     if Kp is None:
@@ -155,7 +161,11 @@ def gen_case(rng, law=None, Kp=None):
     for L in loads[1:]:
         if L >= grid[-1] * 1.02:
             grid.append(L)
-    return {"law": law, "group": g, "Rm": Rm, "E": E, "K": K, "n": n, "Kp": Kp, "tol": tol, "loads": grid}
+    # loads at the upper edge of "a few times the tensile strength" for the scalar round trip load(stress(L))
+    if hi is None:
+        hi = sorted(rng.uniform(3, 6) for _ in range(2))
+    return {"law": law, "group": g, "Rm": Rm, "E": E, "K": K, "n": n, "Kp": Kp, "tol": tol, "loads": grid,
+            "hi": [m * Rm for m in hi]}
 
 
 # ------------------------------------------------------------------ the property
@@ -183,12 +193,12 @@ class C06(Prop):
     }
     RULE = ("case = law (extended Neuber / Seeger-Beste) x FKM-estimated material (3 groups, R_m in [200, 2000]) x K_p in "
             "{1, 1.001, 1.5, 3.5, 10} (Seeger-Beste > 1) or random x tolerance rtol = tol in [1e-10, 1e-4] x spaced grid of loads up to "
-            "4 R_m, both signs, both branches.  Correspondence: defining functions of the real objects vs the model at Float "
+            "4 R_m, both signs, both branches; extended Neuber in addition: a vector holding exact zeros (+0.0, -0.0) among non-zero loads as ndarray / Series / list, and scalar round trips load(stress(L)) at 3 ... 6 R_m (secondary: twice that) for all three material groups.  Correspondence: defining functions of the real objects vs the model at Float "
             "(relative 1e-11 on the terms; Seeger-Beste widened by the conditioning of the middle term) at the returned roots, inside "
             "/ at the ends of the bracket, at zero stress and for negative arguments; extended Neuber forward and backward values vs "
             "the model's bisection roots within tol + rtol |root|.  Oracle (no Lean): reference root by an independent bisection; "
             "|value - root| <= tol + rtol |root|; |L|/K_p <= |value| <= |L| (within the tolerance); odd; increasing on the grid; "
-            "load(stress(L)) = L; ndarray = Series bit for bit, scalar = array within the tolerance; solver RuntimeErrors counted.  "
+            "load(stress(L)) = L; ndarray = Series bit for bit, scalar = array within the tolerance; every element of a vector with zeros as its scalar call (zero -> zero, nan is a failure); a scalar backward call returns the load or raises; solver RuntimeErrors counted.  "
             "Non-trivial = every case in which at least one solver call returned")
     ASSUMPTIONS = [
         "C06: theorems are over the reals about the defining functions as coded (incl. the np.divide fall-backs); what "
@@ -216,6 +226,14 @@ class C06(Prop):
             for Kp in (KPS if law == "neuber" else KPS[1:]):
                 for _ in range(4 if not big else 12):
                     yield gen_case(rng, law, Kp)
+        # scalar backward calls at 3 ... 6 R_m for all three material groups (where the backward Newton iteration runs out of
+        # iterations: it must then raise, never return the last iterate)
+        for g in GROUPS:
+            for Kp in (2.0, 3.5, 4.0, 10.0):
+                for _ in range(1 if not big else 4):
+                    c = gen_case(rng, "neuber", Kp, group=g, hi=[3.0, 4.0, 5.0, 6.0])
+                    c["tol"] = 1e-4
+                    yield c
         for _ in range(220 if not big else 1500):
             yield gen_case(rng)
 
@@ -246,7 +264,19 @@ class C06(Prop):
                 else:       # "only implemented for the scalar case"
                     back = [call(g, float(v), t) for v in a[:len(Ls)]]
                     back = [b[0] if isinstance(b, list) else b for b in back]
-            out[br] = {"arr": a, "ser": s, "scalar": sc, "back": back}
+            zero = hi = None
+            if case["law"] == "neuber":
+                zl = zero_vector(Ls)
+                zero = {"loads": zl, "arr": call(f, np.array(zl), t), "ser": call(f, pd.Series(zl), t), "list": call(f, list(zl), t),
+                        "scalar": [call(f, x, t) for x in zl]}
+                hi = []
+                g = fn(law, "load", br)
+                for L in case.get("hi", []):
+                    for L1 in (float(L) * br, -float(L) * br):        # load ranges of the secondary branch reach twice as far
+                        v = call(f, L1, t)
+                        bk = call(g, v[0], t) if isinstance(v, list) and v[0] == v[0] else None
+                        hi.append((L1, v, bk))
+            out[br] = {"arr": a, "ser": s, "scalar": sc, "back": back, "zero": zero, "hi": hi}
         self._cache[key] = out
         return out
 
@@ -281,6 +311,9 @@ class C06(Prop):
                 Ls = case["loads"]
                 for L in Ls + [-x for x in Ls]:
                     lines.append(f"c06.root {kind_of(case, br)} {mat} {f2h(L)}")
+                if isinstance(run[br]["arr"], list) and isinstance(run[br]["zero"]["arr"], list):
+                    for L in run[br]["zero"]["loads"]:
+                        lines.append(f"c06.root {kind_of(case, br)} {mat} {f2h(L)}")
                 a = run[br]["arr"]
                 if isinstance(a, list) and isinstance(run[br]["back"], list):
                     for v in a[:len(Ls)]:
@@ -305,6 +338,9 @@ class C06(Prop):
                 if isinstance(a, list):
                     out.extend(f2h(v) for v in a)
                     self._count("neuber_forward_values", len(a))
+                    if isinstance(run[br]["zero"]["arr"], list):
+                        out.extend(f2h(v) for v in run[br]["zero"]["arr"])
+                        self._count("neuber_forward_values_in_a_vector_with_zeros", len(run[br]["zero"]["arr"]))
                     if isinstance(run[br]["back"], list):
                         out.extend(f2h(v) for v in run[br]["back"])
                         self._count("neuber_backward_values", n)
@@ -428,6 +464,44 @@ class C06(Prop):
                     if abs(v[0] - ref) > 2 * tolv[i]:
                         return (f"{what}: scalar input {Ls[i]!r} gives {v[0]!r}, the same load inside an array {ref!r}",
                                 f"{name}-containers" if name == "neuber" else sb_class(f"{name}-tolerance", abs(v[0] - ref) / abs(ref), Kp))
+            # --- a vector that holds exact zeros among other loads: every element as for the scalar call, zero -> zero
+            z = r.get("zero")
+            if z is not None:
+                refz = [0.0 if x == 0 else math.copysign(ref_root(case, br, abs(x)), x) for x in z["loads"]]
+                for cname in ("arr", "ser", "list"):
+                    got = z[cname]
+                    if isinstance(got, str):
+                        if got == "RuntimeError":
+                            self._count("neuber_solver_raises_zero_vector")
+                            continue
+                        return (f"{what}: {cname} input {z['loads']!r} raises {got}", "neuber-containers")
+                    self._count("neuber_zero_vector_elements_checked", len(got))
+                    for x, v, rx, sc in zip(z["loads"], got, refz, z["scalar"]):
+                        tv = t + t * abs(rx)
+                        if not (v == v) or abs(v - rx) > tv or (x == 0 and v != 0):
+                            scal = sc[0] if isinstance(sc, list) else sc
+                            return (f"{what}: the load {x!r} inside the {cname} {z['loads']!r} gives {v!r}; as a scalar it gives {scal!r}, "
+                                    f"root of the defining equation {rx!r}", "neuber-containers")
+                for x, sc, rx in zip(z["loads"], z["scalar"], refz):
+                    if isinstance(sc, list) and (not (sc[0] == sc[0]) or abs(sc[0] - rx) > t + t * abs(rx)):
+                        return (f"{what}: scalar load {x!r} gives {sc[0]!r}, root {rx!r}", "neuber-tolerance")
+            # --- scalar round trip at the upper edge of the load range: load(stress(L)) is L, or the solver raises - a scalar
+            #     result is never covered by the recorded finding about silently unconverged ARRAY results
+            for L1, v, bk in (r.get("hi") or []):
+                if isinstance(v, str) or bk is None:
+                    if isinstance(v, str) and v != "RuntimeError":
+                        return (f"{what}: scalar load {L1!r} raises {v}", "neuber-scalar-input")
+                    self._count("neuber_solver_raises_scalar_high_load")
+                    continue
+                if isinstance(bk, str):
+                    if bk != "RuntimeError":
+                        return (f"{what}: load({v[0]!r}) raises {bk}", "neuber-scalar-input")
+                    self._count("neuber_backward_scalar_raises_high_load")
+                    continue
+                self._count("neuber_backward_scalar_returned_high_load")
+                if not (bk[0] == bk[0]) or abs(bk[0] - L1) > 6 * (t + t * abs(L1)):
+                    return (f"{what}: scalar round trip load(stress({L1!r})) = load({v[0]!r}) = {bk[0]!r} (R_m = {case['Rm']!r}, "
+                            f"{case['group']}): returned without an error and is not the load", "neuber-inverse")
             # --- backward = inverse
             back = r["back"]
             if isinstance(back, str):
@@ -459,4 +533,16 @@ class C06(Prop):
                         break
                 except Exception:      # noqa: BLE001
                     continue
+        for key in ("hi",):
+            changed = True
+            while changed and len(cur.get(key, [])) > 0:
+                changed = False
+                for i in range(len(cur[key])):
+                    cand = dict(cur, **{key: cur[key][:i] + cur[key][i + 1:]})
+                    try:
+                        if still_fails(cand):
+                            cur, changed = cand, True
+                            break
+                    except Exception:      # noqa: BLE001
+                        continue
         return cur
